@@ -244,6 +244,18 @@ impl PropImpl for C02 {
     fn assumptions(&self) -> Vec<String> {
         vec!["'time proportional to a small polynomial' is decided by a CPU budget of 20 s on inputs up to 16 KiB (existing quadratic paths need < 0.5 s there): refutable, not provable".into()]
     }
+    fn expected_labels(&self) -> Vec<&'static str> {
+        // every entry point must have returned at least once; the fallible ones must have produced both outcomes
+        let infallible = ["apt_sources::Signature::from_str", "copyright::License::from_str", "dep3::AppliedUpstream::from_str", "dep3::Forwarded::from_str", "dep3::Origin::from_str", "relations::BuildProfile::from_str", "vcs::ParsedVcs::from_str", "vcs::Vcs::from_field(Cvs)", "vcs::Vcs::from_field(Git)", "vcs::Vcs::from_field(Hg)", "vcs::Vcs::from_field(Svn)"];
+        let mut v = vec![];
+        for e in EPS {
+            v.push(e.ok);
+            if !infallible.contains(&e.name) {
+                v.push(e.err);
+            }
+        }
+        v
+    }
     fn budget(&self, tier: Tier) -> Budget {
         Budget { cases_per_lane: if tier == Tier::Quick { 16000 } else { 200_000 }, tape_max: 700, cpu_s: 20 }
     }
